@@ -1,20 +1,17 @@
 (** Model of internal/remoting/serialize/remoting_envelop.go and internal/remoting/handshake.go.
 
     envelope := lp4(payload) lp4(name) u8(system) lp4(sAddr) lp4(sPath) lp4(rAddr) lp4(rPath)
-    The decoder returns the four strings (the caller rebuilds the refs); an absent ref is written as
-    two empty strings.  A typed-nil sender/receiver passes the [!= nil] test and is dereferenced
-    OUTSIDE any recover: [MECrash]. *)
+    The decoder returns the four strings (the caller rebuilds the refs); an absent ref — a nil interface
+    or a typed nil pointer ([isNilRef]) — is written as two empty strings. *)
 From Coq Require Import List NArith ZArith Lia Bool.
 From stdpp Require Import gmap.
 From Vivid Require Import Codec.Prim Codec.MsgPrim Cluster.VV Codec.ClusterMsgs Codec.Msgs.
 Local Open Scope N_scope.
 
-Definition ref_strs (r : eref) : mres (bytes * bytes) :=
-  match r with
-  | RAbsent => MOk ([], [])
-  | RRef a p => MOk (a, p)
-  | RTypedNil => MErr MECrash
-  end.
+
+(** the two strings an envelope carries for a ref: absent (nil interface or typed nil pointer) = ("","") *)
+Definition strs_of (r : eref) : bytes * bytes :=
+  match r with RRef a p => (a, p) | _ => ([], []) end.
 
 Section Envelope.
   Variable U : Type.
@@ -45,8 +42,8 @@ Section Envelope.
              | None => MErr MENoCodec
              end
       end in
-    let*m s := ref_strs (e_sender e) in
-    let*m r := ref_strs (e_receiver e) in
+    let s := strs_of (e_sender e) in
+    let r := strs_of (e_receiver e) in
     MOk (fst payload_name ++ put_lp4 (snd payload_name) ++ put_bool (e_system e) ++
          put_lp4 (fst s) ++ put_lp4 (snd s) ++ put_lp4 (fst r) ++ put_lp4 (snd r)).
 
@@ -69,8 +66,6 @@ Section Envelope.
       end.
 
   (** what the envelope of [e] must decode to: the refs as strings, absent = ("","") *)
-  Definition strs_of (r : eref) : bytes * bytes :=
-    match r with RRef a p => (a, p) | _ => ([], []) end.
   Definition expected_out (e : envelope) : envelope_out :=
     {| o_system := e_system e; o_saddr := fst (strs_of (e_sender e)); o_spath := snd (strs_of (e_sender e));
        o_raddr := fst (strs_of (e_receiver e)); o_rpath := snd (strs_of (e_receiver e)); o_msg := e_msg e |}.
@@ -82,7 +77,7 @@ Section Envelope.
     match r with
     | RAbsent => True
     | RRef a p => len32 a /\ len32 p
-    | RTypedNil => False
+    | RTypedNil => True
     end.
   Definition valid_envelope (e : envelope) : Prop :=
     valid_ref (e_sender e) /\ valid_ref (e_receiver e) /\
